@@ -167,16 +167,25 @@ class _Continue(Exception):
 # modules
 
 
+MODULE_VARIANTS = {}   # module name -> 'try' | 'except': which arm of a module-level try/except ImportError is live
+
+
 class Module:
-    def __init__(self, name, path):
-        self.name, self.path = name, path
+    def __init__(self, name, path, variant="try"):
+        self.name, self.path, self.variant = name, path, variant
         with open(path) as f:
             self.source = f.read()
         self.tree = ast.parse(self.source, filename=path)
         self.defs = {}
         self.imports = {}     # local name -> ('mod', dotted) | ('from', dotted, attr)
         self.globals_nodes = {}
-        for n in self.tree.body:
+        self.has_try = False
+        self._scan(self.tree.body)
+        self.classes = {}
+
+    def _scan(self, stmts):
+        name = self.name
+        for n in stmts:
             if isinstance(n, ast.FunctionDef):
                 self.defs[n.name] = n
             elif isinstance(n, ast.ClassDef):
@@ -194,7 +203,16 @@ class Module:
                     self.imports[a.asname or a.name] = ("from", base, a.name)
             elif isinstance(n, ast.Assign) and len(n.targets) == 1 and isinstance(n.targets[0], ast.Name):
                 self.globals_nodes[n.targets[0].id] = n.value
-        self.classes = {}
+            elif isinstance(n, ast.Try):
+                # module-level try/except (optional imports): one arm is live, chosen by MODULE_VARIANTS
+                self.has_try = True
+                if self.variant == "try":
+                    self._scan(n.body)
+                    self._scan(n.orelse)
+                else:
+                    if n.handlers:
+                        self._scan(n.handlers[0].body)
+                self._scan(n.finalbody)
 
     def get_class(self, name):
         if name not in self.classes:
@@ -206,13 +224,15 @@ _MODULES = {}
 
 
 def load_module(dotted):
-    if dotted in _MODULES:
-        return _MODULES[dotted]
+    variant = MODULE_VARIANTS.get(dotted, "try")
+    key = (dotted, variant)
+    if key in _MODULES:
+        return _MODULES[key]
     path = os.path.join(REPO, *dotted.split(".")) + ".py"
     if not os.path.exists(path):
         return None
-    m = Module(dotted, path)
-    _MODULES[dotted] = m
+    m = Module(dotted, path, variant)
+    _MODULES[key] = m
     return m
 
 
